@@ -214,6 +214,7 @@ def run_case(case, world):
 
     tasks = {}
     restore_refused = [False]
+    ever_refused = [False]      # an injected fault refused to restore the initial locale at some point of the history
 
     def check_invariants(opname, feats):
         live = [t for t in tasks.values() if t['state'] in ('suspended', 'dropped')]
@@ -268,6 +269,7 @@ def run_case(case, world):
         for v in loc.fault_values:
             if locale_identity(v) == initial_ident:
                 restore_refused[0] = True
+                ever_refused[0] = True
 
     def fn_of(expr):
         return expr.split('(')[0].strip() if '(' in expr else 'expr'
@@ -282,6 +284,12 @@ def run_case(case, world):
             return
         if faulted and outcome[0] == 'error':
             world.probe('faulted-op-failed-cleanly')
+            return
+        if faulted and loc.faults_fired and outcome[0] == 'ok' and ref[0] == 'ok' and 'collation/UCA' in op['expr'] \
+                and 'fallback=no' not in op['expr']:
+            # a UCA collation whose locale could not be set falls back (the specification allows it unless
+            # fallback=no): another value than the fault-free reference, not judged
+            world.probe('faulted-uca-collation-fell-back')
             return
         if outcome[0] == 'error' and ref[0] == 'error' and outcome[1] != 'ElementPathError' \
                 and ref[1] != 'ElementPathError':
@@ -458,7 +466,11 @@ def run_case(case, world):
             except BaseException as e:
                 outcome = canon_exc(e)
             ref = ref_for(op)
-            if outcome != ref:
+            if outcome != ref and ever_refused[0]:
+                # the simulated OS refused to go back to the initial locale once: the spelling (or the locale itself)
+                # that is left is not the library's doing, and the default collation of new parsers follows it
+                world.probe('recovery-not-compared-after-refused-restore')
+            elif outcome != ref:
                 violate('RECOVERY', 'recovery:result-diff', 'after the history %s gives %r, pristine %r' % (
                     op['expr'], outcome, ref))
                 break
